@@ -47,7 +47,7 @@ def session():
         text = exa.neighbor_text(families=FAMILIES, capability={'extended-message': 'enable'})
         conf, neighbor = exa.neighbor_from_text(text)
         caps = [build.cap_mp(a, s) for a, s in [(1, 133), (1, 134), (2, 133), (2, 134)]] + [build.cap_asn4(65000), build.cap_ext_msg()]
-        neg = exa.negotiate(neighbor, build.open_with_caps(65000, 90, 0x0A000002, caps), exa.Direction.OUT)
+        neg = exa.negotiate(neighbor, build.open_with_caps(65000, 90, 0x0A000002, caps), exa.Direction.IN)  # the daemon makes its one Negotiated per session with Direction.IN (reactor/protocol.py) and encodes with it
         _STATE.update(conf=conf, neg=neg)
     return _STATE['conf'], _STATE['neg']
 
